@@ -21,11 +21,13 @@ def to_smt2(hyps, goal) -> str:
     return s.to_smt2()
 
 
-def _solve_z3(smt: str, timeout_ms: int):
+def _solve_z3(smt: str, timeout_ms: int, seed: int = 0):
     t0 = time.time()
     ctx = z3.Context()
     s = z3.Solver(ctx=ctx)
     s.set("timeout", timeout_ms)
+    if seed:
+        s.set("random_seed", seed)
     try:
         s.from_string(smt)
         r = s.check()
@@ -66,13 +68,40 @@ def _solve_cvc5(smt: str, timeout_ms: int):
         os.unlink(path)
 
 
+def load_factor() -> float:
+    """Time limits are wall-clock: when the machine is already busy with other work the same query needs
+    proportionally longer, so the limits are stretched by the load per core (between 1 and 3)."""
+    try:
+        return max(1.0, min(3.0, os.getloadavg()[0] / (os.cpu_count() or 1)))
+    except OSError:  # pragma: no cover
+        return 1.0
+
+
 def solve_one(task):
-    """task = (name, smt, timeout_ms, use_cvc5) -> dict"""
-    name, smt, timeout_ms, use_cvc5 = task
+    """task = (name, smt, timeout_ms, use_cvc5[, first[, seed]]) -> dict; ``first`` = "cvc5" runs cvc5 before z3
+    (obligations that cvc5 decided when the baseline was recorded: z3's time limit would only be waited out);
+    ``seed`` != 0: z3 only, with that random seed (second attempts: z3's search on a quantified query can take a
+    bad turn that another seed does not take)"""
+    name, smt, timeout_ms, use_cvc5 = task[:4]
+    first = task[4] if len(task) > 4 else "z3"
+    seed = task[5] if len(task) > 5 else 0
+    if seed:
+        res, reason, model, dt = _solve_z3(smt, timeout_ms, seed)
+        return dict(name=name, result=res, reason=reason, model=model, backend="z3", time=round(dt, 3))
+    total = 0.0
+    if first == "cvc5" and use_cvc5:
+        r2, reason2, _, dt2 = _solve_cvc5(smt, timeout_ms)
+        total += dt2
+        if r2 in ("unsat", "sat"):
+            return dict(name=name, result=r2, reason=reason2, model="", backend="cvc5", time=round(total, 3))
     res, reason, model, dt = _solve_z3(smt, timeout_ms)
+    if res == "unknown" and dt < 0.5 * timeout_ms / 1000 and ("cancel" in reason or "interrupt" in reason):
+        # gave up long before the limit (a stale timer of the previous query in this worker): ask again
+        res, reason, model, dt2 = _solve_z3(smt, timeout_ms)
+        dt += dt2
     backend = "z3"
-    total = dt
-    if res in ("unknown", "error") and use_cvc5:
+    total += dt
+    if res in ("unknown", "error") and use_cvc5 and first != "cvc5":
         r2, reason2, _, dt2 = _solve_cvc5(smt, timeout_ms)
         total += dt2
         if r2 in ("unsat", "sat"):
@@ -85,6 +114,9 @@ def solve_all(tasks, workers=None):
     out = {}
     if not tasks:
         return out
+    lf = load_factor()
+    if lf > 1.0:
+        tasks = [(t[0], t[1], int(t[2] * lf)) + tuple(t[3:]) for t in tasks]
     if workers == 1 or len(tasks) == 1:
         for t in tasks:
             out[t[0]] = solve_one(t)
